@@ -87,7 +87,10 @@ impl J1939Unit for Simulator {
     ) -> Result<(), J1939UnitError> {
         let hcu0 = crate::driver::HydraulicControlUnit::new(&self.interface, 0x4a, 0x27);
 
-        let message = hcu0.parse(frame).unwrap();
+        // Frames the hydraulic control unit would not understand are not meant for the simulator.
+        let Some(message) = hcu0.parse(frame) else {
+            return Ok(());
+        };
 
         match message {
             crate::driver::net::hydraulic::HydraulicMessage::Actuator(actuator) => {
